@@ -57,3 +57,20 @@ def eos_masked():
     except error.EndOfStreamError:
         return False, 'EndOfStreamError raised after %d steps' % len(outcomes)
     return True, '12 steps on a closed, truncated stream: %s ... (never EndOfStreamError)' % outcomes[:4]
+
+
+def wrapper_mark_keeps_lookahead(back=2):
+    """setting the mark once the cache outgrew the buffer size keeps the octets that were read ahead and pushed back"""
+    from pyasn1.codec.streaming import CachingStreamWrapper
+    K = io.DEFAULT_BUFFER_SIZE
+    data = bytes((i * 7 + 3) % 251 for i in range(2 * K))
+    raw = io.BytesIO(data)
+    raw.seekable = lambda: False
+    w = CachingStreamWrapper(raw)
+    w.read(K + 100)
+    w.seek(-back, io.SEEK_CUR)              # look-ahead pushed back
+    w.markedPosition = w.tell()             # element start: the cache may be dropped here
+    got = w.read(back + 3)
+    want = data[K + 100 - back:K + 100 + 3]
+    return got != want, 'after reading %d octets, seeking back %d and setting the mark, read(%d) gives %r, the stream ' \
+                        'holds %r there' % (K + 100, back, back + 3, got, want)
